@@ -187,6 +187,15 @@ fn run_one(
                 }
             }
         }
+        // epilogues: C30 (no silently dropped request), C32 (recovery once faults stop)
+        for lbl in [json!({"a":"Final"}), json!({"a":"Recover","rounds":16})] {
+            i += 1;
+            let applied = c.step(&lbl).await;
+            let st = c.project().await;
+            let ev = std::mem::take(&mut c.events);
+            let dl = std::mem::take(&mut c.delivered);
+            w.write(&json!({"run":run,"id":id,"step":i,"a":lbl,"applied":applied,"st":st,"ev":ev,"msgs":dl}));
+        }
         c.shutdown().await;
     });
     let _ = std::fs::remove_dir_all(&snap_dir);
